@@ -5,11 +5,11 @@ import ast
 import keyword
 from typing import Dict, List, Optional, Set, Tuple
 
-from ..absint import Interp
+from ..absint import Interp, subst
 from ..model import AnalysisError, ClassInfo, FuncInfo, dotted, norm, walk_no_nested
 from ..report import rule
 from ..shape import Alt, Attr, CallV, Index, ListOf, Lit, Node, Param, Seq, Shaper, alts, chain, is_lit, nodes, seq_items
-from ..util import allargs, argv, calls_named, cfg_of, is_const, is_name, key, kw, names_in, site_packages_source, stdlib_source, strip_pre
+from ..util import allargs, argv, calls_named, cfg_of, comp_struct, is_const, is_name, key, kw, names_in, site_packages_source, stdlib_source, strip_pre
 
 PG = "client_generators.package:PackageGenerator"
 CGEN = "client_generators.client:ClientGenerator."
@@ -588,21 +588,68 @@ def c04_r5(ctx):
 @rule("C04.R6", "classes with forward references are rebuilt after all classes are defined", min_instances=6, also=["C06", "C09", "C01"])
 def c04_r6(ctx):
     repo = ctx.repo
+    def add_parts(e):
+        e = strip_pre(e)
+        if isinstance(e, ast.Call) and dotted(e.func) == "cast" and len(e.args) == 2:
+            return add_parts(e.args[1])
+        if isinstance(e, ast.BinOp) and isinstance(e.op, ast.Add):
+            return add_parts(e.left) + add_parts(e.right)
+        return [e]
+
+    def written_module(fi, o):
+        """the generate_module(...) body expression behind the returned module (through the plugin hook), locals spelled out"""
+        v = o.value
+        for _ in range(6):
+            v = strip_pre(subst(v, o.env, deep=True)) if v is not None else None
+            if isinstance(v, ast.Call) and isinstance(v.func, ast.Attribute) and "plugin_manager" in norm(v.func.value) and allargs(v):
+                v = allargs(v)[0]
+            else:
+                break
+        if isinstance(v, ast.Call) and dotted(v.func) == "generate_module" and allargs(v):
+            return strip_pre(allargs(v)[0])
+        return None
+
     for fk in ("client_generators.result_types:ResultTypesGenerator.generate", "client_generators.input_types:InputTypesGenerator.generate"):
         fi = repo.func(fk)
-        env = {st.targets[0].id: st.value for st in ast.walk(fi.node) if isinstance(st, ast.Assign) and len(st.targets) == 1 and isinstance(st.targets[0], ast.Name)}
-        mr = env.get("model_rebuild_calls")
-        good = isinstance(mr, ast.ListComp) and norm(mr.elt) == f"generate_expr(generate_method_call({norm(mr.generators[0].target)}.name, MODEL_REBUILD_METHOD))" \
-            and [norm(i) for i in mr.generators[0].ifs] == [f"model_has_forward_refs({norm(mr.generators[0].target)})"]
-        cls_list = norm(mr.generators[0].iter) if isinstance(mr, ast.ListComp) else ""
-        mb = env.get("module_body")
-        order = norm(mb) if mb is not None else ""
-        good = good and "model_rebuild_calls" in order and cls_list in order and order.index(cls_list) < order.index("model_rebuild_calls") and order.index("_imports") < order.index(cls_list)
+        outs = [o for o in Interp(fi, lambda e: None).run() if o.kind == "return"]
+        good = bool(outs)
+        for o in outs:
+            body = written_module(fi, o)
+            parts = add_parts(body) if body is not None else []
+            comps = []
+            for i, part in enumerate(parts):
+                c = part
+                if isinstance(c, ast.Call) and isinstance(c.func, ast.Attribute) and isinstance(c.func.value, ast.Name) and c.func.value.id == "self" and not c.args and not c.keywords and c.func.attr in fi.cls.methods:
+                    # the comprehension may live in a helper of its own
+                    rets = [r.value for r in ast.walk(fi.cls.methods[c.func.attr].node) if isinstance(r, ast.Return) and r.value is not None]
+                    c = strip_pre(rets[0]) if len(rets) == 1 else c
+                cs = comp_struct(c) if isinstance(c, (ast.ListComp, ast.GeneratorExp)) else None
+                if cs is not None and "generate_method_call(" in str(cs[0]):
+                    comps.append((i, cs))
+            texts = [str(norm(p_)) for p_ in parts]
+            ok = len(comps) == 1
+            if ok:
+                i, cs = comps[0]
+                try:
+                    el = ast.parse(str(cs[0]).replace("$", "_V"), mode="eval").body
+                except SyntaxError:
+                    el = None
+                inner = strip_pre(allargs(el)[0]) if isinstance(el, ast.Call) and dotted(el.func) == "generate_expr" and len(allargs(el)) == 1 else None
+                ok = isinstance(inner, ast.Call) and dotted(inner.func) == "generate_method_call" and len(allargs(inner)) == 2 and norm(allargs(inner)[0]) == "_V0.name" \
+                    and norm(allargs(inner)[1]) in ("'model_rebuild'", "MODEL_REBUILD_METHOD") \
+                    and len(cs[1]) == 1 and [str(x) for x in cs[1][0][1]] in (["model_has_forward_refs($0)"], ["model_has_forward_refs(class_def=$0)"])
+                cls_list = str(cs[1][0][0])
+                ok = ok and cls_list in texts and texts.index(cls_list) < i and any("_imports" in t for t in texts[:texts.index(cls_list)]) and i == len(parts) - 1
+            good = good and ok
         ctx.check(bool(good), key(fi, "model_rebuild"), "model_rebuild() is not emitted for every class with forward references after the class definitions", fi.loc(), okmsg=f"{fi.qualname}: imports < classes < model_rebuild calls")
     fr = repo.func("client_generators.fragments:FragmentsGenerator.generate")
-    gm = calls_named(fr.node, "generate_module")
-    b = norm(kw(gm[0], "body")) if gm and kw(gm[0], "body") is not None else ""
-    good = "imports" in b and "sorted_class_defs" in b and "self._get_model_rebuild_calls(" in b and b.index("imports") < b.index("sorted_class_defs") < b.index("self._get_model_rebuild_calls(")
+    outs = [o for o in Interp(fr, lambda e: None).run() if o.kind == "return"]
+    good = bool(outs)
+    for o in outs:
+        body = written_module(fr, o)
+        texts = [str(norm(p_)) for p_ in (add_parts(body) if body is not None else [])]
+        idx = lambda w: next((i for i, t in enumerate(texts) if w in t), -1)
+        good = good and len(texts) == 3 and texts[0] in ("imports", "[]") and texts[1].startswith("self._get_sorted_class_defs(") and texts[2].startswith("self._get_model_rebuild_calls(") and f"class_defs={texts[1]}" in texts[2]
     ctx.check(good, key(fr, "model_rebuild"), "fragments module body is not imports < classes < model_rebuild calls", fr.loc(), okmsg="fragments: imports < classes < model_rebuild calls")
     apps = [c for c in walk_no_nested(fr.node) if isinstance(c, ast.Call) and norm(c.func) == "top_level_class_names.append"]
     good = len(apps) == 1
@@ -898,7 +945,8 @@ def c04_r4(ctx):
     loops = [n for n in gs.node.body if isinstance(n, ast.For)]
     good = len(loops) == 1 and norm(loops[0].iter) == "data.names_to_import" and "rsplit('.', maxsplit=1)" in norm(loops[0]) and "imports.append(generate_import_from(names=[object_name], from_=module_name))" in norm(loops[0])
     pi = repo.func("client_generators.scalars:ScalarData.__post_init__")
-    good = good and "[name for name in (self.type_, self.serialize, self.parse) if name]" in norm(pi.node)
+    from .tables import scalar_names_to_import
+    good = good and scalar_names_to_import(pi) == ["self.parse", "self.serialize", "self.type_"]
     ctx.check(good, key(gs, "dotted names"), "type / serialize / parse given with a module path are not all imported", gs.loc(), okmsg="scalar type, serialize and parse are imported from their modules")
 
 
@@ -946,13 +994,15 @@ def c09_r1(ctx):
     ctx.check(good, key(mc, "operations before generate"), "operations are not all added before generate()", mc.loc(), okmsg="all operations added before generate()")
     # pruning uses the accumulated list
     ge_ = repo.func(PG + "._generate_enums")
-    def _tti(x):
+    def _tti(x, it_=None):
         m = x.env.get("module")
         m = strip_pre(m) if m is not None else None
         if not (isinstance(m, ast.Call) and norm(m.func) == "self.enums_generator.generate"):
             return "?"
         a = argv(m, 0, "types_to_include")
         a = strip_pre(x.deref(a)) if isinstance(a, ast.Name) else a
+        if a is not None and it_ is not None:
+            a = strip_pre(it_._simp(a, x.env))      # `None if self.include_all_enums else self._used_enums`: the arm this scenario takes
         return "<all>" if a is None or is_const(a, None) else norm(a)
 
     def _inc(v):
@@ -966,11 +1016,13 @@ def c09_r1(ctx):
                 return False
             return None
         return atom
-    o = Interp(ge_, _inc(False)).run()
-    good = bool(o) and all(_tti(x) == "self._used_enums" for x in o)
+    it1 = Interp(ge_, _inc(False))
+    o = it1.run()
+    good = bool(o) and all(_tti(x, it1) == "self._used_enums" for x in o)
     ctx.check(good, key(ge_, "pruned"), f"with include_all_enums=false the enums module is not generated from the used-enum list ({[_tti(x) for x in o]})", ge_.loc(), okmsg="include_all_enums=false -> generate(types_to_include=self._used_enums)")
-    o = Interp(ge_, _inc(True)).run()
-    good = bool(o) and all(_tti(x) == "<all>" for x in o)
+    it2 = Interp(ge_, _inc(True))
+    o = it2.run()
+    good = bool(o) and all(_tti(x, it2) == "<all>" for x in o)
     ctx.check(good, key(ge_, "all"), f"with include_all_enums=true not all enums are generated ({[_tti(x) for x in o]})", ge_.loc(), okmsg="include_all_enums=true -> generate()")
 
 
@@ -1050,8 +1102,10 @@ def c09_r3(ctx):
         bad = g.must_pass(g.entry, rs, lambda x: any(x.id == y.id for y in gens)) if rs else ["missing"]
         ctx.check(bool(rs) and bad is None, key(fi, meth), f"{meth}() can be read before input_types_generator.generate() filled it", fi.loc(), okmsg=f"{meth}() read only after generate()")
     # include_all_inputs=false uses the inputs of the operations' variables
-    o = Interp(fi, lambda e: (False if norm(e) in ("self.include_all_inputs", "self.plugin_manager") else None)).run()
-    good = bool(o) and all(norm(strip_pre(x.env.get("module") or ast.Constant(0))) == "self.input_types_generator.generate(types_to_include=self.client_generator.arguments_generator.get_used_inputs())" for x in o)
+    it3 = Interp(fi, lambda e: (False if norm(e) in ("self.include_all_inputs", "self.plugin_manager") else None))
+    o = it3.run()
+    good = bool(o) and all(norm(strip_pre(it3._simp(subst(x.env.get("module") or ast.Constant(0), x.env, deep=True), x.env))) ==
+                           "self.input_types_generator.generate(types_to_include=self.client_generator.arguments_generator.get_used_inputs())" for x in o)
     ctx.check(good, key(fi, "pruned"), "with include_all_inputs=false the inputs module is not generated from the inputs used as variable types", fi.loc(), okmsg="include_all_inputs=false -> generate(types_to_include=used inputs)")
 
 
@@ -1470,22 +1524,29 @@ def c17_r6(ctx):
     cgr = CallGraph(repo)
     scope = [gcs] + [f for f in cgr.reach([gcs]).values() if f.module is gcs.module and f.key != gcs.key]
     reads, guarded = 0, 0
-    for f in scope:
+
+    def in_guarded_try(f, node):
         par = {}
         for n in ast.walk(f.node):
             for ch in ast.iter_child_nodes(n):
                 par[id(ch)] = n
+        q, prev = par.get(id(node)), node
+        while q is not None:
+            if isinstance(q, ast.Try) and any(prev is b or any(prev is x for x in ast.walk(b)) for b in q.body):
+                for h in q.handlers:
+                    if h.type is not None and "KeyError" in norm(h.type) and any(isinstance(x, ast.Raise) and "MissingConfiguration" in norm(x) for x in ast.walk(h)):
+                        return True
+            prev, q = q, par.get(id(q))
+        return False
+    for f in scope:
         for n in ast.walk(f.node):
             if isinstance(n, ast.Subscript) and isinstance(n.ctx, ast.Load) and is_const(n.slice, "type"):
                 reads += 1
-                q, prev = par.get(id(n)), n
-                ok_ = False
-                while q is not None:
-                    if isinstance(q, ast.Try) and any(prev is b or any(prev is x for x in ast.walk(b)) for b in q.body):
-                        for h in q.handlers:
-                            if h.type is not None and "KeyError" in norm(h.type) and any(isinstance(x, ast.Raise) and "MissingConfiguration" in norm(x) for x in ast.walk(h)):
-                                ok_ = True
-                    prev, q = q, par.get(id(q))
+                ok_ = in_guarded_try(f, n)
+                if not ok_ and f.key != gcs.key:
+                    # the read sits in a helper: every call of the helper must be inside such a try block
+                    sites = [(g_, c) for g_ in scope for c in ast.walk(g_.node) if isinstance(c, ast.Call) and isinstance(c.func, ast.Name) and c.func.id == f.node.name]
+                    ok_ = bool(sites) and all(in_guarded_try(g_, c) for g_, c in sites)
                 guarded += 1 if ok_ else 0
     conv = reads >= 1 and guarded == reads
     ctx.check(conv, key(gcs, "scalar without type"), "a scalar without `type` is not reported as MissingConfiguration", gcs.loc(), okmsg="scalar without type -> MissingConfiguration")
